@@ -6,7 +6,7 @@
    correspondence on the verdict class.  The theorems say what these text-level checks MEAN. *)
 From Coq Require Import List ZArith NArith Bool.
 From JS Require Import Base.Res Spec.Decimal Model.AllOf Model.Number Model.EnumParse Model.RuleSem
-  Proofs.DigitArith Proofs.NumberCmp Proofs.NumberNorm Proofs.NumberScan Proofs.NumberMain Proofs.RuleProofs.
+  Proofs.DigitArith Proofs.NumberCmp Proofs.NumberNorm Proofs.NumberScan Proofs.NumberMain Proofs.RuleProofs Proofs.LeavesComplete.
 Import ListNotations.
 
 (* min / max: exact comparison of the decimal values the two texts denote - whatever their spelling (trailing zeros, -0,
@@ -57,6 +57,17 @@ Theorem C01_alternatives : forall d fuel alts own seen lo, In lo (fst (leaves fu
 Proof. exact leaves_sound. Qed.
 Print Assumptions C01_or.
 Print Assumptions C01_alternatives.
+(* ... and the list holds ALL of them once the fuel covers the walk (every type is expanded once; the result of the
+   depth-first walk is closed under "is an alternative of"), which the fuel the model runs with does *)
+Theorem C01_alternatives_exact : forall d fuel alts own lo, length alts + weight d [] < fuel ->
+  (In lo (fst (leaves fuel d alts own [])) <-> AltLeaf d alts own lo).
+Proof. exact leaves_exact. Qed.
+Print Assumptions C01_alternatives_exact.
+Theorem C01_fuel_enough : forall d root,
+  (forall alts, snd root = VRefs alts -> length alts + weight d [] < proj_fuel d root) /\
+  (forall t ex alts, In (t, (ex, VRefs alts)) d -> length alts + weight d [] < proj_fuel d root).
+Proof. exact proj_fuel_enough. Qed.
+Print Assumptions C01_fuel_enough.
 Theorem C01_items : forall fuel d count mn mx v, check_value fuel d (VArr count mn mx) v = true <->
   (forall m, mn = Some m -> (m <= count)%Z) /\ (forall m, mx = Some m -> (count <= m)%Z).
 Proof. exact items_exact. Qed.
